@@ -402,7 +402,10 @@ def simple_rewrites(ts, opts=None):
                 i += 2; continue
         if t == 'Self' and i + 2 < n and ts[i + 1] == '::' and ts[i + 2] not in ('Item', 'Output', 'Error') and (i + 3 >= n or ts[i + 3] != '{') and not opts.get('keep_self_paths'):
             nx = ts[i + 2]
-            if nx.isupper() or (nx[0].islower()) or '_' in nx and nx.upper() == nx:
+            free = opts.get('free_fns')
+            # `Self::CONST` always; `Self::f(` only when the overlay has `f` as a free function (an associated fn of the real code
+            # that the flat unit holds at module level); a method that the overlay keeps inside the impl stays `Self::f`
+            if nx.upper() == nx or (nx[0].islower() and (free is None or nx in free)):
                 i += 2; continue
         out.append(t); i += 1
     return out
